@@ -62,6 +62,24 @@ func TestVerifC07(t *testing.T) {
 		entry := g.Entries[r.Intn(len(g.Entries))]
 		viaFeed := r.Intn(5) == 0
 		tokens := randomTokens(r, g, feedNames, nKeys, false)
+		if n%6 == 5 {
+			// a long excursion: several hundred keys without ever going back, so that the browser history grows far beyond any
+			// small fixed capacity (some 100 pages), then back and forth through it
+			long := randomTokens(r, g, feedNames, 4*nKeys, false)
+			tokens = tokens[:0]
+			for _, tk := range long {
+				if tk.desc != "h" {
+					tokens = append(tokens, tk)
+				}
+			}
+			for i := 0; i < 40; i++ {
+				tokens = append(tokens, tok("h", "h"))
+			}
+			for i := 0; i < 20; i++ {
+				tokens = append(tokens, tok("l", "l"))
+			}
+			c.Count("long_excursions", 1)
+		}
 		desc := map[string]any{"world_case": n, "anomaly": o.Anomaly, "preload": config.Parsed.Network.Context, "entry": entry.ID, "via_feed": viaFeed}
 		if !c.Begin(n, fmt.Sprintf("world anomaly=%d entry=%s feed=%v keys=%d", o.Anomaly, entry.ID, viaFeed, nKeys)) {
 			continue
